@@ -260,6 +260,42 @@ pub fn gen_complex(rng: &mut Rng) -> Complex {
     Complex { first, rest }
 }
 
+/// structural selectors over a small name alphabet: types, nth-*, first-*, combinators
+pub fn gen_structural(rng: &mut Rng, names: &[&str]) -> SelList {
+    let comp = |rng: &mut Rng| -> Compound {
+        let mut v = vec![];
+        match rng.below(4) {
+            0 => v.push(Simple::Universal),
+            1 => {}
+            _ => v.push(Simple::Type((*rng.pick(names)).to_string())),
+        }
+        if v.is_empty() || rng.chance(2, 3) {
+            let (a, b) = *rng.pick(&[(0, 1), (0, 2), (0, 3), (2, 0), (2, 1), (3, -1), (-1, 2), (1, 0), (0, 4), (1, 2)]);
+            v.push(match rng.below(5) {
+                0 => Simple::NthChild(a, b),
+                1 | 2 => Simple::NthOfType(a, b),
+                3 => Simple::FirstOfType,
+                _ => Simple::FirstChild,
+            });
+        }
+        if rng.chance(1, 6) {
+            v.push(Simple::Not(vec![Compound(vec![Simple::Type((*rng.pick(names)).to_string())])]));
+        }
+        Compound(v)
+    };
+    let n = if rng.chance(1, 6) { 2 } else { 1 };
+    SelList(
+        (0..n)
+            .map(|_| {
+                let first = comp(rng);
+                let k = rng.below(3);
+                let rest = (0..k).map(|_| (if rng.bool() { Comb::Child } else { Comb::Desc }, comp(rng))).collect();
+                Complex { first, rest }
+            })
+            .collect(),
+    )
+}
+
 pub fn gen_list(rng: &mut Rng) -> SelList {
     let n = if rng.chance(1, 5) { rng.range(2, 3) } else { 1 };
     SelList((0..n).map(|_| gen_complex(rng)).collect())
